@@ -139,6 +139,60 @@ CLAIMED = {
     design_ref="DESIGN.md 4.9",
     note="Seeded history exploration, nothing more: this property has no "
          "schedule and its only fault is the refusal."),
+ "C22": dict(
+    engine="E5-lfric-dm",
+    technique="deterministic simulation: generated distributed-memory PSy "
+              "layer executed on 2-3 simulated MPI ranks (rank tasks under a "
+              "seeded scheduler, halo exchanges as messages, async "
+              "start/finish windows), arbitrary initial dirty/clean halo "
+              "state with garbage in dirty halos as the injected fault, "
+              "global single-copy reference",
+    text="Seeded LFRic invokes (generated kernel metadata, built-ins, "
+         "stencils, both annexed-dof settings) go through the real pipeline "
+         "and a seeded history of redundant-computation, colouring, OpenMP, "
+         "asynchronous-halo and move transformations; the generated text is "
+         "interpreted on a 1-D chain mesh per rank. Oracles: every owned dof "
+         "equals the global reference at the end; before every loop nest and "
+         "at the end every copy the flags call clean equals its owner; no "
+         "read of an in-flight halo / write to an in-flight send buffer; "
+         "ranks never diverge on exchanges. Sampling, not proof.",
+    design_ref="DESIGN.md 4.10",
+    note="Trusts the stub's reading of the LFRic contract (developer guide: "
+         "cell/dof ordering, annexed-dof cases); 1-D mesh; no operators, "
+         "vectors, inter-grid, reductions."),
+ "C23": dict(
+    engine="E5-lfric-dm",
+    technique="deterministic simulation (history dimension + simulated "
+              "parallel-loop race detector): seeded colouring/OpenMP/OpenACC "
+              "transformation histories, structural oracle on the generated "
+              "text backed by two-iterations-increment-one-dof detection",
+    text="Seeded histories of colouring, OpenMP and OpenACC loop/region "
+         "transformations (dm on and off) on generated invokes with "
+         "INC/READINC/WRITE updates on continuous, any_space and "
+         "discontinuous spaces. After the history, if generation succeeds, "
+         "every parallel cell loop holding a shared-dof incrementing kernel "
+         "must be a single-colour loop, no colours loop may sit in a "
+         "parallel region, and in the simulated execution no two iterations "
+         "of one parallel loop increment the same dof. Sampling.",
+    design_ref="DESIGN.md 4.11",
+    note="Loops inside an 'acc kernels' region count as parallel loops "
+         "(PSyclone's own LFRic OpenACC script colours before applying "
+         "kernels)."),
+ "C15": dict(
+    engine="E2-history",
+    technique="deterministic simulation (two replicas that must stay "
+              "isolated): seeded edit histories on a copy and its original, "
+              "other side's written code as the observation",
+    text="A seeded subtree of a generated module is copied with the real "
+         "copy(); equality, node disjointness and inner-scope symbol binding "
+         "are checked at copy time; then <=8 seeded edits (rename/add "
+         "symbols, replace literals/expressions, detach/insert statements, "
+         "loop bounds, initial values) hit either side and after each the "
+         "other side's FortranWriter text must be unchanged. Leaks are "
+         "classified by how the edited symbol is reachable. Sampling.",
+    design_ref="DESIGN.md 4.6",
+    note="Edits are restricted to the copied subtree and the symbols "
+         "declared inside it."),
 }
 
 NOT_APPLICABLE = {
@@ -215,6 +269,9 @@ def main():
             {"name": "E4-transhistory", "path": "simkit/richgen.py, simkit/histmachine.py, simkit/gfcheck.py, checks/c26.py, checks/c10.py, checks/c04.py",
              "serves_properties": ["C26", "C10", "C04"],
              "kind_free_text": "transformation-history machine over generated modules; refusals as crash points; gfortran as validity oracle"},
+            {"name": "E5-lfric-dm", "path": "simkit/lfricgen.py, simkit/lfricsim.py, checks/c22.py, checks/c23.py",
+             "serves_properties": ["C22", "C23"],
+             "kind_free_text": "LFRic workload generator + multi-rank simulator interpreting the generated PSy layer; seeded rank scheduler; stub LFRic infrastructure"},
             {"name": "E2-history", "path": "checks/c14.py, checks/c16.py, checks/c15.py",
              "serves_properties": ["C14", "C16", "C15"],
              "kind_free_text": "seeded operation histories against a reference model; refusals as faults; ddmin"},
